@@ -156,6 +156,13 @@ func (n *DestinationAckerNode) worker(
 					handleError(msg, cerrors.Errorf("error while fetching acks: %w", err))
 					return
 				}
+				if len(acks) == 0 {
+					// An empty ack response confirms nothing. Indexing into it
+					// below would panic and take the whole process down; treat
+					// it as a failed ack fetch so the message stays unconfirmed.
+					handleError(msg, cerrors.Errorf("received an empty ack response from the destination"))
+					return
+				}
 			}
 
 			ack := acks[0]
